@@ -21,12 +21,12 @@ import (
 
 // execSpec describes one Execute call of a history.
 type execSpec struct {
-	RunID      string
-	ToStep     int    // signals queued for the step
-	ToClose    string // "", "before" (channel closed before Execute), "after" (closed after it returns), "open"
-	FromStep   int    // signals the peer emits before the terminal message
-	WantFrom   bool   // caller passes a channel for emitted signals
-	StepFatal  bool
+	RunID     string
+	ToStep    int    // signals queued for the step
+	ToClose   string // "", "before" (channel closed before Execute), "after" (closed after it returns), "open"
+	FromStep  int    // signals the peer emits before the terminal message
+	WantFrom  bool   // caller passes a channel for emitted signals
+	StepFatal bool
 }
 
 type history struct {
@@ -90,7 +90,7 @@ func body(h history) func() {
 		} else {
 			c2s, s2c = mcrt.NewPipe("c2s"), mcrt.NewPipe("s2c")
 		}
-		peer := &atpkit.Peer{In: c2s.Reader(), Out: s2c.Writer(), Hello: hello, Plans: map[string]atpkit.RunPlan{}}
+		peer := &atpkit.Peer{In: c2s.Reader(), Out: s2c.Writer(), OutLink: s2c, Hello: hello, Plans: map[string]atpkit.RunPlan{}}
 		o.peer = peer
 		for _, g := range h.Groups {
 			for _, x := range g {
@@ -273,9 +273,19 @@ func main() {
 			var out []mc.Scenario
 			for _, h := range histories(tier) {
 				hists[h.Name] = h
+				n := 0
+				for _, g := range h.Groups {
+					n += len(g)
+				}
 				levels := []mc.Bounds{{Preempt: 0, Delay: 0}, {Preempt: 1, Delay: 1}, {Preempt: 2, Delay: 2}}
-				if tier == "thorough" {
+				if tier == "thorough" || (n <= 2 && h.Name != "2-concurrent-mixed") {
 					levels = append(levels, mc.Bounds{Preempt: 3, Delay: 3})
+				}
+				if tier == "thorough" {
+					levels = append(levels, mc.Bounds{Preempt: 4, Delay: 4})
+					if n <= 2 {
+						levels = append(levels, mc.Bounds{Preempt: 5, Delay: 5})
+					}
 				}
 				out = append(out, mc.Scenario{Name: h.Name, Levels: levels, Races: true})
 			}
